@@ -154,7 +154,7 @@ where
         match i {
             0 => match s.script.get(s.e_pos) {
                 Some(EStep::Send(..)) => true,
-                Some(EStep::Recv) => crate::sysshim::readable(s.h.fd()),
+                Some(EStep::Recv) => s.h.msg_ready(),
                 None => false,
             },
             _ => s.k_pos < s.kicks,
